@@ -10,6 +10,7 @@ package sim
 // race detector.
 
 import (
+	"strings"
 	"bufio"
 	"context"
 	"fmt"
@@ -116,6 +117,91 @@ func runCtorStress(name string, seed int64, iters int, bw *bufio.Writer) {
 	case <-done:
 	case <-time.After(60 * time.Second):
 		status = "hang ctor"
+	}
+	fmt.Fprintf(bw, "X %s %s\n", name, status)
+	bw.Flush()
+}
+
+// M3, directed family "closerace": callers keep sending on a forward (or reverse) tunnel while the
+// channel is closed from another goroutine. Everything that reaches the carrier stream must
+// still go through the library's thread-safe wrappers: the carrier reports overlapping Send /
+// CloseSend calls (1502), the race detector watches the rest.
+func runCloseRace(name string, seed int64, rounds int, bw *bufio.Writer) {
+	status := "ok"
+	var lines []string
+	for round := 0; round < rounds; round++ {
+		cfg := Config{Mode: []string{"fwd", "rev"}[round%2], Free: true}
+		if round == 0 {
+			fmt.Fprintf(bw, "S %s %s\n", name, cfg.String())
+			fmt.Fprintf(bw, "A 0 stress closerace\n")
+		}
+		w := NewWorld(cfg)
+		w.auto = true
+		w.autoPlans = map[int]*autoPlan{}
+		rng := rand.New(rand.NewSource(seed + int64(round)))
+		w.openTunnelFree("who=closerace", "p")
+		ch := w.waitChannel(0, 5*time.Second)
+		if ch == nil {
+			status = "hang closerace: tunnel did not come up"
+			break
+		}
+		var wg sync.WaitGroup
+		stop := make(chan struct{})
+		for c := 0; c < 4; c++ {
+			wg.Add(1)
+			go func(c int) {
+				defer wg.Done()
+				for i := 0; ; i++ {
+					select {
+					case <-stop:
+						return
+					default:
+					}
+					r := (c*31 + i) % MaxRPC
+					w.mu.Lock()
+					w.autoPlans[r] = &autoPlan{shape: "U", cSends: []int{10}, respSz: 10}
+					w.mu.Unlock()
+					ctx, cancel := context.WithTimeout(context.Background(), 2*time.Second)
+					resp := staleMsg()
+					_ = ch.Invoke(ctx, fmt.Sprintf("/v.S/U%d", r), &Msg{Value: payloadFor(r, 'c', 0, 10)}, resp)
+					cancel()
+				}
+			}(c)
+		}
+		for k := 0; k < rng.Intn(200); k++ {
+			runtime.Gosched()
+		}
+		w.mu.Lock()
+		ts := w.tunnels[0]
+		w.mu.Unlock()
+		if ts.ch != nil {
+			ts.ch.Close()
+		}
+		close(stop)
+		done := make(chan struct{})
+		go func() { wg.Wait(); close(done) }()
+		select {
+		case <-done:
+		case <-time.After(20 * time.Second):
+			status = "hang closerace: callers did not return after Close"
+		}
+		for _, e := range w.drain() {
+			if strings.HasPrefix(e, "harnessfail") || strings.HasPrefix(e, "PANIC") {
+				lines = append(lines, e)
+			}
+		}
+		ts.cancel()
+		if ts.link != nil {
+			ts.link.kill(io.ErrClosedPipe)
+		}
+		if status != "ok" {
+			break
+		}
+	}
+	for i, e := range lines {
+		if i < 8 {
+			fmt.Fprintf(bw, "E 0 %s\n", e)
+		}
 	}
 	fmt.Fprintf(bw, "X %s %s\n", name, status)
 	bw.Flush()
